@@ -1036,3 +1036,14 @@ PROPS["C13"]["kani_units"] = list(PROPS["C13"]["kani_units"]) + ["U67"]
 PROPS["C13"]["claim"] = PROPS["C13"]["claim"] + " Checksum gate (Kani, complete per action kind; CRC-32 by contract): LogReader::next hands every byte of a record's actions to the hasher, in order and without gaps, accepts the END_RECORD marker exactly if the four bytes behind it are the hasher's result, rejects unknown action bytes, consumes exactly the bytes of the action and reads record id, table id and position from the bytes where the writer puts them."
 PROPS["C13"]["does_not_cover"] = [x.replace("CRC and record sequencing", "CRC-32 itself (crc32fast, trusted); that the payload bytes read through LogReader::read are hashed is part of U9's reader contract") for x in PROPS["C13"]["does_not_cover"]]
 PROPS["C12"]["does_not_cover"] = [x for x in PROPS["C12"]["does_not_cover"] if "flush_one when the sync fails" not in x]
+
+# ---------------------------------------------------------------- U68 (Verus fragment: change_ref with its frame)
+UNIT_META["ref_change_frame"] = {"functions": ["table::ValueTable::change_ref (fragment: from the tombstone test to the end)"],
+                                 "assumes": ["the entry cursor API (is_tombstone, is_multi, skip_size, skip_next, read_size, offset, set_offset, read_rc, write_rc) enters by contract over a ghost view (bytes, offset): each reads / writes exactly the bytes at the cursor (Kani, U5, on the real Entry)",
+                                             "`buf[0..size].to_vec()` becomes a contract requiring the range to lie inside the buffer (shape rewrite, size expression verbatim); LogWriter::insert_value records what it is handed (unit log_writer)",
+                                             "precondition (layout of a stored entry that carries a counter): the four counter bytes lie inside the entry and the entry inside the buffer; loading the entry (log overlay first, else the file) is in front of the fragment",
+                                             "i32::unsigned_abs is declared with its std meaning although the code does not call it"]}
+PROPS["C07"]["verus_units"] = list(PROPS["C07"].get("verus_units", [])) + ["ref_change_frame"]
+PROPS["C07"]["claim"] = PROPS["C07"]["claim"] + " Frame of a count change (Verus, fragment of change_ref, all counters and entry contents): what change_ref hands to the log is the stored entry, under its own slot, with exactly the four counter bytes replaced by the new count (raised by one, locked at u32::MAX and then never lowered, lowered by one) and nothing else changed; an absent entry and a count that reaches zero log nothing."
+PROPS["C07"]["does_not_cover"] = [x for x in PROPS["C07"]["does_not_cover"] if "frame of change_ref" not in x]
+PROPS["C08"]["does_not_cover"] = [x for x in PROPS["C08"]["does_not_cover"] if "bg_err state" not in x and "clean_overlay (Entry API)" not in x]
